@@ -97,3 +97,19 @@ Example C04_prescribed_values : forall cfg,
   prescribed 1000 cfg RScotland = (cf_nballots cfg / (cf_nseats cfg + 1) + 1) * 1000 /\
   prescribed 1000 cfg RMpls = (cf_nballots cfg / (cf_nseats cfg + 1) + 1) * 1000.
 Proof. intros cfg. repeat split. Qed.
+
+(* ... for every ballot file the reader accepts, counted with the file's own ballot count as the driver does *)
+From Droop Require Import Model.Profile Proofs.EndToEndLink Model.EndToEnd.
+Theorem C04_gregory_quota_for_every_accepted_file : forall A S (ZL : zlike A S) cfg,
+  0 <= cf_nseats cfg -> raw ZL (epsilon A) = 1 -> exact A = false ->
+  forall r text p fuel s k, seat_rule r -> parse_file text = Ok p -> cf_nballots cfg = p_nBallots p ->
+  exec (@crashed A) fuel (count_cmd A cfg r) (init_state A cfg (to_count_profile p)) = Some (s, k) -> k <> Abort ->
+  let n := p_nBallots p in let st := cf_nseats cfg in
+  let q := match r with
+           | RWigm => if cf_integer_quota cfg then (1 + n / (st + 1)) * S else n * S / (st + 1) + 1
+           | RWigmPrf | RCfer => n * S / (st + 1) + 1
+           | _ => (n / (st + 1) + 1) * S
+           end in
+  raw ZL (quota s) = q /\ Forall (fun sn => raw ZL (as_quota sn) = q) (snaps A (actions s)).
+Proof. exact accepted_gregory_quota. Qed.
+Print Assumptions C04_gregory_quota_for_every_accepted_file.
